@@ -45,6 +45,9 @@ HCHAIN = "self.bhe.b.H"
 
 
 class _SizeHooks(Hooks):
+    def __init__(self, closures=None):
+        self.closures = closures or {}
+
     def on_assign(self, key, val, stmt, st, eng):
         if key == HCHAIN:
             st.emit("HWRITE", val, stmt)
@@ -52,6 +55,11 @@ class _SizeHooks(Hooks):
     def on_call(self, node, fname, args, kwargs, st, eng):
         if fname == "self.simulate":
             st.emit("SIM", None, node)
+        if fname in self.closures and len(args) > self.closures[fname]:
+            # the sizing objective: writes its trial height, simulates at it, returns the excess (checked on the closure itself below)
+            st.emit("HWRITE", args[self.closures[fname]], node)
+            st.emit("SIM", None, node)
+            return sym._plain_call("OBJ", [args[self.closures[fname]]]) if isinstance(args[self.closures[fname]], Rat) else None
         return None
 
 
@@ -110,7 +118,9 @@ def _check_freshness(prog: Program, res: Result):
     q = f"{GHX}.GHE.size"
     fi = prog.func(q)
     res.analysed(q)
-    eng = Engine(prog, fi, _SizeHooks())
+    from . import search_common as sc_
+
+    eng = Engine(prog, fi, _SizeHooks(sc_.height_closures(fi.node)))
     st = State()
     for p in fi.params():
         st.env[p] = Rat.atom(p)
